@@ -232,6 +232,11 @@ func (s *TermStore) Bin(op Op, a, b *Term) *Term {
 			if a.op == OpZExt && b.k&mask(a.a.w) == mask(a.a.w) {
 				return a
 			}
+			// x & (2^k-1)  =>  zext(extract(x, k-1, 0))
+			if b.k&(b.k+1) == 0 && b.k != 0 {
+				k := bits.Len64(b.k)
+				return s.ZExt(s.Extract(a, k-1, 0), int(w))
+			}
 		}
 		if a == b {
 			return a
